@@ -1232,6 +1232,10 @@ def main(argv):
                         n += 1
                         print('VIOLATION property=%s replay=%s' % (pid, a.file))
                         print('  key=%s type=%s\n  %s' % (x['key'], x['type'], x['detail'][:3000]))
+            for c in w.engine_crashes:
+                n += 1
+                print('VIOLATION property=%s replay=%s' % (v.get('prop', c['case']['prop']), a.file))
+                print('  key=%s/fatal-crash type=%s\n  %s\n  %s' % (c['case']['engine'], c['case']['type'], c['fatal'], c['log'][:2000]))
             if n == 0:
                 print('replay: no violation reproduced on the current tree')
             return 1 if n else 0
